@@ -10,3 +10,16 @@ class RevToOrigin(ReverseProxyBasePlugin):
     def routes(self):
         return [(r'/a/', [b'http://127.0.0.1:%d/ua' % int(os.environ.get('VERIF_ORIGIN_A', '1'))]),
                 (r'/b/', [b'http://127.0.0.1:%d/ub' % int(os.environ.get('VERIF_ORIGIN_B', '1'))])]
+
+
+from proxy.http.proxy import HttpProxyBasePlugin      # noqa: E402
+
+
+class OptOutByPort(HttpProxyBasePlugin):
+    """Opts out of TLS interception for CONNECT targets whose port is listed in $VERIF_OPTOUT_PORTS (comma separated)."""
+
+    def do_intercept(self, request):
+        ports = {int(x) for x in os.environ.get('VERIF_OPTOUT_PORTS', '').split(',') if x}
+        if request.port in ports:
+            return False
+        return super().do_intercept(request)
